@@ -57,6 +57,38 @@ def loadState (hs : List (Nat × Tree)) : State NodeData × Option String :=
     (l', acc.2.set h (some r))) (({} : Loader), List.replicate nh none)
   ({ heap := l.heap.toList, handles }, l.inconsistent)
 
+/-- As `loadState`, also returning the address → cell id map. -/
+def loadStateIds (hs : List (Nat × Tree)) : State NodeData × Std.HashMap Nat Nat :=
+  let nh := hs.foldl (fun m (h, _) => max m (h + 1)) 0
+  let (l, handles) := hs.foldl (fun (acc : Loader × List (Option (Ref NodeData))) (h, t) =>
+    let (l', r) := loadTree acc.1 t
+    (l', acc.2.set h (some r))) (({} : Loader), List.replicate nh none)
+  ({ heap := l.heap.toList, handles }, l.ids)
+
+mutual
+  /-- The ownership view of a real re-parse result: cells whose address existed before are reused,
+  everything else is fresh. -/
+  def buildSpecOf (ids : Std.HashMap Nat Nat) : Tree → BuildSpec NodeData
+    | .mk d kids =>
+      if d.addr == 0 then .leaf (norm d)
+      else match ids.get? d.addr with
+        | some id => .reuse (.ptr id)
+        | none => .node (norm d) (buildSpecsOf ids kids)
+  def buildSpecsOf (ids : Std.HashMap Nat Nat) : List Tree → List (BuildSpec NodeData)
+    | [] => []
+    | t :: ts => buildSpecOf ids t :: buildSpecsOf ids ts
+end
+
+mutual
+  def specReused : BuildSpec NodeData → Nat
+    | .reuse _ => 1
+    | .leaf _ => 0
+    | .node _ ks => specReusedL ks
+  def specReusedL : List (BuildSpec NodeData) → Nat
+    | [] => 0
+    | s :: ss => specReused s + specReusedL ss
+end
+
 /-! ## Judges on a (real) state -/
 
 def countRef (refs : List (Ref NodeData)) (id : Nat) : Nat :=
